@@ -60,11 +60,6 @@ func NewExploreTrace(prop, tier string, seed uint64, world int) *Trace {
 		cfg.PEvidence, cfg.POutage, cfg.PAbsent = 0, 0, 0
 		cfg.KindW["unstake"] = 0.5
 	}
-	if d := core.Derive(seed, "c16-silent-validator", uint64(world)); prop == "C16" && cfg.SilentVal == 0 && cfg.RewardCliff == 0 && cfg.NVals >= 3 && d.Chance(0.15) {
-		// (own stream, see above) a genesis validator that is no asset holder: whenever it proposes, the block's
-		// fees go to an account that does not exist yet
-		cfg.SilentVal = 1 + d.Intn(cfg.NVals)
-	}
 	tr := &Trace{Version: 1, Engine: "chain-sim", Seed: seed, World: world, Cfg: cfg}
 	tr.Genesis = NewGenesis(&tr.Cfg, seed, world, r)
 	return tr
